@@ -86,6 +86,20 @@ def gen(tier, rng):
         if rng.random() < 0.5:
             w = [rng.choice(probes), rng.randrange(-50, 0)]
         yield access_case(shape, req, probes, w)
+    # --- names that are prefixes of one another ("d1", "d10", "d100" share their start address in
+    #     the harness): content, not address, must decide
+    for names in ([1, 10], [10, 1], [1, 10, 100], [100, 1, 10], [2, 20, 200], [1, 10, 2]):
+        D = len(names)
+        for lens in itertools.product((1, 2, 3), repeat=D):
+            shape = [[n, l] for n, l in zip(names, lens)]
+            for perm in itertools.permutations(range(D)):
+                req = [names[p] for p in perm]
+                lens_req = [shape[p][1] for p in perm]
+                probes = all_probes(lens_req)
+                yield access_case(shape, req, probes, None)
+                idx = [rng.randrange(l) for l in lens_req]
+                yield access_case(shape, req, [idx], [idx, -9])
+            yield access_case(shape, [names[0]] * D, [[0] * D], None)
     # --- malformed orderings: duplicate one name, substitute a foreign name, for every position
     for D in range(1, 5):
         for shape in shapes(D, 2):
